@@ -80,7 +80,8 @@ type deferred struct {
 type iterInfo struct {
 	mapVal  *Val
 	mapType *types.Map
-	id      string // iterator id (address in IT components)
+	id      string // iterator id
+	comp, compSort string // visited-set component of this iterator
 	isStr   bool
 }
 
@@ -117,6 +118,27 @@ type Enc struct {
 	rec      map[string]bool
 	ghostComps map[string]bool
 	freshMemo  map[*ssa.Function]map[string]bool
+}
+
+// cnt2(S, V) = |{k in S : V[k]}| for finite S: built-in counting axioms (trusted base)
+func (e *Enc) useCnt2() {
+	for _, a := range e.s.Axioms {
+		if strings.HasPrefix(a, "(declare-fun cnt2 ") {
+			return
+		}
+	}
+	e.s.Axioms = append(e.s.Axioms,
+		"(declare-fun cnt2 ((Array Int Bool) (Array Int Bool)) Int)",
+		"(assert (forall ((v (Array Int Bool))) (! (= (cnt2 ((as const (Array Int Bool)) false) v) 0) :pattern ((cnt2 ((as const (Array Int Bool)) false) v)))))",
+		"(assert (forall ((s (Array Int Bool)) (v (Array Int Bool)) (k Int)) (! (=> (not (select s k)) (= (cnt2 (store s k true) v) (+ (cnt2 s v) (ite (select v k) 1 0)))) :pattern ((cnt2 (store s k true) v)))))",
+		"(assert (forall ((s (Array Int Bool)) (v (Array Int Bool)) (k Int) (b Bool)) (! (=> (not (select s k)) (= (cnt2 s (store v k b)) (cnt2 s v))) :pattern ((cnt2 s (store v k b))))))",
+		"(assert (forall ((s (Array Int Bool)) (v (Array Int Bool)) (k Int) (b Bool)) (! (=> (not (select s k)) (= (cnt2 (store s k true) (store v k b)) (+ (cnt2 s v) (ite b 1 0)))) :pattern ((cnt2 (store s k true) (store v k b))))))",
+		"(assert (forall ((s (Array Int Bool)) (v (Array Int Bool))) (! (>= (cnt2 s v) 0) :pattern ((cnt2 s v)))))",
+		// extensionality (contrapositive, with a witness function)
+		"(declare-fun cnt2diff ((Array Int Bool) (Array Int Bool)) Int)",
+		"(assert (forall ((s (Array Int Bool)) (t (Array Int Bool)) (v (Array Int Bool))) (! (or (= (cnt2 s v) (cnt2 t v)) (not (= (select s (cnt2diff s t)) (select t (cnt2diff s t))))) :pattern ((cnt2 s v) (cnt2 t v)))))",
+	)
+	e.note("built-in counting axioms for cnt2 (finite-set cardinality restricted by a predicate) are part of the trusted base")
 }
 
 // specAssume evaluates a clause and assumes it together with the well-typedness facts of
@@ -1486,15 +1508,17 @@ func (e *Enc) writeSet(fr *Frame, li *loopInfo, st *State, instr ssa.Instruction
 		if !x.IsString {
 			if r, ok := x.Iter.(*ssa.Range); ok {
 				mt := r.X.Type().Underlying().(*types.Map)
-				mc := e.mapInfo(mt)
-				ws.whole("IT:"+mc.mk, "(Array Int "+nestArr(mc.ks, "Bool")+")")
+				cn, cs := itComp(e.mapInfo(mt), r)
+				ws.whole(cn, cs)
+				ws.whole(cn+"#steps", "Int")
 			}
 		}
 	case *ssa.Range:
 		*allocs = true
 		if mt, ok := x.X.Type().Underlying().(*types.Map); ok {
-			mc := e.mapInfo(mt)
-			ws.whole("IT:"+mc.mk, "(Array Int "+nestArr(mc.ks, "Bool")+")")
+			cn, cs := itComp(e.mapInfo(mt), x)
+			ws.whole(cn, cs)
+			ws.whole(cn+"#steps", "Int")
 		}
 	case *ssa.Select:
 		ws.whole("CH:len", "(Array Int Int)")
